@@ -32,9 +32,10 @@ def generic(n, m, seed, j, kind="plain", cond_max=1e3):
     X = rng.standard_normal((n, m))
     if kind.startswith("lowrank"):
         r = int(kind[len("lowrank"):])
-        A = rng.standard_normal((n, r))
-        B = rng.standard_normal((r, m))
-        X = A @ B
+        A = np.round(rng.standard_normal((n, r)) * 32) / 32
+        A[-1] = -A[:-1].sum(axis=0)  # exactly centred columns, still dyadic
+        B = np.round(rng.standard_normal((r, m)) * 32) / 32
+        return (A @ B).tolist()  # exact dyadic product: rank is exactly <= r
     if kind in ("decay", "cdecay"):
         X = X * (0.5 ** np.arange(m))[None, :]
     X = np.round(X * 1024) / 1024
